@@ -19,6 +19,7 @@ type c07Case struct {
 	Src    string
 	Cfg    drv.Cfg
 	Expect string `json:",omitempty"` // canonical value of the FULL program when it is known ("" = unknown)
+	MustErr bool  `json:",omitempty"` // the program exceeds a built-in capacity: it must be rejected
 }
 
 // K: work per counted operation that is still "proportional" (a native method may touch up to 512 elements,
@@ -36,7 +37,11 @@ func c07Enumerate(tier string, seed int64, emit func(string, any)) {
 	tmpl := []string{
 		"Md6", "MdM", "2d6kM", "Md6kM", "bM", "pM", "Ma10", "Ma2m6", "2a2mM", "2a10mM", "Mc10", "Mc2m6", "2c2mM", "5c2m2", "5a2m2", "Ma0",
 		"i=0; while i < M { i = i + 1 }; i", "i=0; while 1 { i = i + 1 }", "while 1 {}", "func g(n){ n <= 0 ? 0 : 1 + g(n-1) }; g(M)", "func g(n){ g(n+1) }; g(0)", "func g(n){ h(n) }; func h(n){ g(n) }; g(1)",
-		"&a = a + 1; a", "&a = b; &b = a; a", "[1..M]", "[M..1]", "x=[1..500]; x = x + x", "x=[1,2]; i=0; while i < M { x = x + x; i = i + 1 }; x.len()", "[1,2]*M", "x=[1]; i=0; while i<M { x = [x, x]; i=i+1 }; 1",
+		"&a = a + 1; a", "&a = b; &b = a; a",
+		// work done inside sub-evaluations, reached through every way of reading a name
+		"&a = Md6; a + a", "&a = Md6; load('a') + load('a')", "&a = Md6; this.a + this.a", "&a = Md6; `{a}{a}`", "&a = Md6; [a, load('a'), this.a]", "&a = Md6; &b = a + a; b + load('b')", "func g(){ Md6 }; g() + g()", "func g(){ Md6 }; &a = g(); load('a')",
+		"&a = Md6; x = {'k': &a}; x.k", "&a = Md6; &a.compute() + 0", "&a = Ma10; load('a')", "&a = Mc10; this.a", "&a = [1..500].sum() * M; load('a') + load('a')",
+		"[1..M]", "[M..1]", "x=[1..500]; x = x + x", "x=[1,2]; i=0; while i < M { x = x + x; i = i + 1 }; x.len()", "[1,2]*M", "x=[1]; i=0; while i<M { x = [x, x]; i=i+1 }; 1",
 		"x=[1]; i=0; while i<M { x = [x, x]; i=i+1 }; x", "x=[1]; i=0; while i<60 { x = [x, x]; i=i+1 }; toStr(x).len", "x=[1]; i=0; while i<60 { x = [x, x]; i=i+1 }; x == x",
 		"x='a'; i=0; while i<M { x = x + x; i=i+1 }; 1", "x='a'; while 1 { x = x + x }", "x='a'; while 1 { x = `{x}{x}` }", "x='ab'; i=0; while i<M { x = x + x; i=i+1 }; x[1]",
 		"[1..500].kh(M)", "[1..500].randSize(M)", "x=[1..500]; i=0; while i<M { x.shuffle(); i=i+1 }; 1", "x=[1..500]; i=0; while i<M { x.sum(); i=i+1 }; 1", "i=0; while i<M { f; i=i+1 }; 1", "i=0; while i<M { b3; i=i+1 }; 1",
@@ -126,6 +131,30 @@ func c07Enumerate(tier string, seed int64, emit func(string, any)) {
 		emit("capacity/container length", c07Case{Src: fmt.Sprintf("x=[1..%d]; (x + [0]).len()", n), Cfg: cfg, Expect: fmt.Sprint(n + 1)})
 		emit("capacity/container length", c07Case{Src: fmt.Sprintf("x=[0]; i=1; while i<%d { x.push(i); i=i+1 }; x.len()", n), Cfg: big, Expect: fmt.Sprint(n)})
 	}
+	// the container-length capacity (512 elements created by one operation) holds for every operation that creates an
+	// array in one go, in both directions and operand orders
+	for _, n := range []int{512, 513, 1024, 20000, 1000000} {
+		for _, t := range []string{"[1..%d].len()", "[%d..1].len()", "[0..%d].len()", "[%d..0].len()", "[-1..%d].len()", "[%d..-1].len()", "([0]*%d).len()", "(%d*[0]).len()", "([0,1]*%d).len()", "x=[1..512]; y=[1..%d]; (x+y).len()", "func g(){ [%d..1] }; g().len()", "&a = [%d..1]; a.len()"} {
+			m := n
+			if strings.Contains(t, "[0..") || strings.Contains(t, "..0]") {
+				m = n - 1 // n elements
+			} else if strings.Contains(t, "[-1..") || strings.Contains(t, "..-1]") {
+				m = n - 2
+			} else if strings.Contains(t, "[0,1]*") {
+				m = (n + 1) / 2
+			} else if strings.Contains(t, "x+y") {
+				if n > 512 {
+					continue
+				}
+				m = 1
+			}
+			c := c07Case{Src: fmt.Sprintf(t, m), Cfg: cfg}
+			if n > 512 {
+				c.MustErr = true
+			}
+			emit("capacity/container length", c)
+		}
+	}
 	// every control-flow program under a small budget: the accounting oracle applies to all of them
 	gen.ControlFlow(false, func(s string) {
 		c := drv.AllOn()
@@ -145,9 +174,20 @@ func c07Run(raw json.RawMessage) harn.Result {
 			res.Violations = append(res.Violations, harn.Violation{Signature: sig, What: fmt.Sprintf("cfg[%s] program %q: %s", c.Cfg, trunc(c.Src, 160), what)})
 		}
 	}
-	var steps, rolls int64
-	ds.VerifStepHook = func(ctx *ds.Context, pc, top, bd, fd, dd, nd int) { steps++ }
-	ds.VerifRollHook = func(s *rand.PCGSource, sides ds.IntType) (ds.IntType, bool) { rolls++; return 0, false }
+	var steps, rolls, diceRolls int64
+	inInvoke := false
+	ds.VerifStepHook = func(ctx *ds.Context, pc, top, bd, fd, dd, nd int) {
+		steps++
+		n := ds.VerifOpName(ctx.VerifOpAt(pc))
+		inInvoke = n == "invoke" || n == "invoke.self"
+	}
+	ds.VerifRollHook = func(s *rand.PCGSource, sides ds.IntType) (ds.IntType, bool) {
+		rolls++
+		if !inInvoke {
+			diceRolls++ // drawn by a dice instruction (the draws of the native shuffle / rand methods are bounded per call instead)
+		}
+		return 0, false
+	}
 	defer func() { ds.VerifStepHook, ds.VerifRollHook = nil, nil }()
 	vm := drv.NewVM(c.Cfg)
 	var perr, rerr error
@@ -185,6 +225,13 @@ func c07Run(raw json.RawMessage) harn.Result {
 	}
 	if perr == nil && rerr == nil && w > c07K*nop+1000 {
 		viol("C07:work-not-accounted", fmt.Sprintf("%d instructions + %d dice but the operation counter says %d", steps, rolls, nop))
+	}
+	// the counter accounts for EVERY instruction executed and EVERY die rolled (sub-evaluations included): exact, no constant
+	if perr == nil && rerr == nil && (steps > nop || diceRolls > nop) {
+		viol("C07:counter-misses-work", fmt.Sprintf("%d instructions executed and %d dice rolled (sub-evaluations included), but the operation counter says %d", steps, diceRolls, nop))
+	}
+	if c.MustErr && perr == nil && rerr == nil {
+		viol("C07:capacity-not-enforced", fmt.Sprintf("returned %s — the program creates a container beyond the built-in capacity in one operation and must be rejected", trunc(drv.Canon(vm.Ret), 80)))
 	}
 	if c.Expect != "" && perr == nil && rerr == nil {
 		got := drv.Canon(vm.Ret)
